@@ -20,35 +20,7 @@ INF = float("inf")
 FAKE_PID_BASE = 1_000_000
 
 
-# ---------------------------------------------------------------------------------------------
-# signals raised *through* the SUT; BaseException so that `except Exception` cannot swallow them
-class SimSignal(BaseException):
-    cls = "sim-signal"
-
-
-class SimHang(SimSignal):
-    """the SUT issued a blocking operation that can never complete"""
-    cls = "hang"
-
-
-class StepBudget(SimSignal):
-    """the SUT used more bytecode steps / CPU than any terminating compile plausibly needs"""
-    cls = "hang"
-
-
-class SimDeadlock(SimSignal):
-    """daemon blocks for input while the client blocks for a reply"""
-    cls = "unanswered"
-
-
-class SimStop(SimSignal):
-    """the scheduler ends the run (nothing more can happen)"""
-    cls = "stop"
-
-
-class Unmodelled(SimSignal):
-    """the SUT used a seam the simulator does not model: HARNESS-ERROR, never a violation"""
-    cls = "harness"
+from .seams_base import SimSignal, SimHang, StepBudget, SimDeadlock, SimStop, Unmodelled  # noqa: E402,F401
 
 
 # ---------------------------------------------------------------------------------------------
@@ -66,6 +38,9 @@ class SimClock:
         self.jumps = list(jumps or [])
         self.skew = 0.0
         self.jumped = 0
+        self.sched = None
+        self.deadline = None  # virtual-time budget of the call in progress (a loop that only ever waits)
+        self.budget = 0.0
 
     def advance(self, d):
         if d < 0:
@@ -73,6 +48,9 @@ class SimClock:
         if d == INF:
             raise SimHang("clock asked to advance forever")
         self.now += d
+        if self.deadline is not None and self.now > self.deadline:
+            self.deadline = None
+            raise SimHang("no return after %.0f virtual seconds" % self.budget)
 
     # replacements for the `time` module
     def time(self):
@@ -98,7 +76,10 @@ class SimClock:
         d = float(d)
         if d < 0:
             raise ValueError("sleep length must be non-negative")
-        self.advance(d)
+        if self.sched is not None:
+            self.sched.sleep(d)  # a blocking point: other threads may run, time moves when nothing can
+        else:
+            self.advance(d)
 
 
 # ---------------------------------------------------------------------------------------------
@@ -114,23 +95,33 @@ class StepClock:
         self.use_monitoring = use_monitoring
         self.cpu_guard_s = cpu_guard_s
         self._tool = None
+        self.sched = None
 
     def install(self):
         if self.use_monitoring:
-            mon = sys.monitoring
-            self._tool = mon.PROFILER_ID
-            mon.use_tool_id(self._tool, "pytrapic-sim-steps")
-            ev = mon.events
-            mon.register_callback(self._tool, ev.PY_START, self._on)
-            mon.register_callback(self._tool, ev.JUMP, self._on)
-            mon.set_events(self._tool, ev.PY_START | ev.JUMP)
+            self.enable_monitoring()
         signal.signal(signal.SIGVTALRM, self._on_cpu)
+
+    def enable_monitoring(self):
+        """interpreter events: the step budget, and the pre-emption points once the SUT runs more than one thread
+        (switched on lazily then, so that a sequential SUT does not pay for it)"""
+        if self._tool is not None:
+            return
+        mon = sys.monitoring
+        self._tool = mon.PROFILER_ID
+        mon.use_tool_id(self._tool, "pytrapic-sim-steps")
+        ev = mon.events
+        mon.register_callback(self._tool, ev.PY_START, self._on)
+        mon.register_callback(self._tool, ev.JUMP, self._on)
+        mon.set_events(self._tool, ev.PY_START | ev.JUMP)
 
     def _on(self, code, offset, *rest):
         self.n += 1
         if self.limit is not None and self.n > self.limit:
             self.exhausted = True
             raise StepBudget("step budget exhausted (%d events)" % self.n)
+        if self.sched is not None and self.sched.multi:
+            self.sched.on_step(code)
 
     def _on_cpu(self, signum, frame):
         if self.limit is None:
@@ -152,46 +143,84 @@ class StepClock:
 
 # ---------------------------------------------------------------------------------------------
 class _ChildStream:
-    """what `process.stdout` / `process.stderr` are when PIPE was requested"""
+    """what `process.stdout` / `process.stderr` are when PIPE was requested: bytes become readable at the virtual
+    time the helper writes them; EOF when the helper and every descendant holding the pipe are gone"""
 
     def __init__(self, proc, which):
         self._proc, self._which, self._pos, self.closed = proc, which, 0, False
 
-    def _data(self):
+    def _wait(self, want):
+        """block until want(available bytes from pos, eof?) is true"""
         p = self._proc
         if self.closed:
             raise ValueError("I/O operation on closed file")
-        p._reap_by_waiting(None, pipes=True)
-        return p._visible(self._which)
+        p._resolve()
+        w = p.world
+        while True:
+            now = w.clock.now
+            data = p._avail(self._which, now)[self._pos:]
+            eof = now >= p._pipes_end()
+            if eof or want(data):
+                return data, eof
+            nxt = p._next_output_time(self._which, now)
+            target = min(nxt, p._pipes_end())
+            w.sched.wait_for(lambda: min(p._next_output_time(self._which, now), p._pipes_end()), None, on=p)
 
     def read(self, n=-1):
-        d = self._data()
         if n is None or n < 0:
-            out, self._pos = d[self._pos:], len(d)
+            data, _ = self._wait(lambda d: False)
         else:
-            out, self._pos = d[self._pos:self._pos + n], min(len(d), self._pos + n)
-        return self._proc._conv(out)
+            data, _ = self._wait(lambda d: len(d) >= 1)
+            data = data[:n]
+        self._pos += len(data)
+        return self._proc._conv(data)
+
+    def read1(self, n=-1):
+        data, _ = self._wait(lambda d: len(d) >= 1)
+        if n is not None and n >= 0:
+            data = data[:n]
+        self._pos += len(data)
+        return self._proc._conv(data)
+
+    def readinto(self, b):
+        data = self.read1(len(b))
+        if isinstance(data, str):
+            data = data.encode("utf-8")
+        b[:len(data)] = data
+        return len(data)
 
     def readline(self, n=-1):
-        d = self._data()
-        i = d.find(b"\n", self._pos)
-        end = len(d) if i < 0 else i + 1
-        out, self._pos = d[self._pos:end], end
-        return self._proc._conv(out)
+        data, _ = self._wait(lambda d: b"\n" in d)
+        i = data.find(b"\n")
+        data = data if i < 0 else data[:i + 1]
+        if n is not None and n >= 0:
+            data = data[:n]
+        self._pos += len(data)
+        return self._proc._conv(data)
 
-    def readlines(self):
+    def readlines(self, hint=-1):
         out = []
         while True:
-            l = self.readline()
-            if not l:
+            ln = self.readline()
+            if not ln:
                 return out
-            out.append(l)
+            out.append(ln)
 
     def __iter__(self):
-        return iter(self.readlines())
+        return self
+
+    def __next__(self):
+        ln = self.readline()
+        if not ln:
+            raise StopIteration
+        return ln
+
+    def readable(self):
+        return True
 
     def close(self):
         self.closed = True
+        self._proc.world.sched.notify(self._proc)
 
     def fileno(self):
         raise Unmodelled("fileno() of a simulated child pipe")
@@ -246,6 +275,8 @@ class SimPopen:
         self._own_group = bool(start_new_session) or process_group == 0
         self._orphan_end = None  # virtual time until which a descendant of the helper keeps the pipes open
         self._orphan_killed = False
+        self._chunks, self._drip, self._kill_t = [], None, None
+        self._inherited_done = False
         if shell or preexec_fn is not None:
             raise Unmodelled("Popen(shell=%r, preexec_fn=%r)" % (shell, preexec_fn))
         for name, v in (("stdin", stdin), ("stdout", stdout), ("stderr", stderr)):
@@ -254,7 +285,7 @@ class SimPopen:
         if isinstance(args, (str, bytes)):
             args = [args]
         argv = [os.fsdecode(a) for a in args]
-        self._script, self._script_from_stdin = self._parse_argv(argv)
+        self._script, self._script_from_stdin, self._script_args = self._parse_argv(argv)
         self._req, self._idx = w.cur_req, w.next_helper_index()
         self._plan = w.helper_plan(self._req, self._idx)
         self._spawn_t = w.clock.now
@@ -295,9 +326,9 @@ class SimPopen:
             if a == "-c":
                 if i + 1 >= len(argv):
                     raise Unmodelled("python -c without code")
-                return argv[i + 1], False
+                return argv[i + 1], False, argv[i + 2:]
             if a == "-":
-                return None, True
+                return None, True, argv[i + 1:]
             if a in ("-X", "-W"):
                 i += 2
                 continue
@@ -308,10 +339,10 @@ class SimPopen:
                 continue
             try:  # a script file, e.g. a temp file the SUT has just written
                 with open(a, "r", encoding="utf-8") as f:
-                    return f.read(), False
+                    return f.read(), False, argv[i + 1:]
             except OSError as e:
                 raise Unmodelled("helper script file %r unreadable: %s" % (a, e))
-        return None, True  # bare `python`: program read from stdin
+        return None, True, []  # bare `python`: program read from stdin
 
     # -- outcome ---------------------------------------------------------------------------
     def _stdin_mode(self):
@@ -332,37 +363,90 @@ class SimPopen:
         else:
             script = self._script
         mode = self._stdin_mode()
-        oc = w.helper_outcome(script, mode, self._stdin_data if mode == "data" else b"")
+        oc = w.helper_outcome(script, mode, self._stdin_data if mode == "data" else b"", self._script_args)
         self._intrinsic = oc
         plan, kind = self._plan, self._plan.get("kind", "ok")
         state = oc["state"]  # exit | never-ends | blocked-on-stdin
         out, err, rc = oc.get("out", b""), oc.get("err", b""), oc.get("rc", 0)
-        dur = plan.get("d", 0.2) + oc.get("slept", 0.0)
+        d0 = plan.get("d", 0.2)
+        dur = d0 + oc.get("slept", 0.0)
         if state != "exit":
-            dur, rc, out, err = INF, None, oc.get("out", b""), oc.get("err", b"")
+            dur, rc = INF, None
+        t0 = self._spawn_t
+        # output timeline: (virtual time, stream, bytes).  A helper that ends writes its output when it ends; one that
+        # gets stuck wrote what it wrote before getting stuck (after its start-up time d).
+        t_out = t0 + (dur if dur != INF else d0)
+        chunks = []
         if kind in ("ok", "slow", "orphan"):
-            pass
+            chunks += [(t_out, "out", out), (t_out, "err", err)]
         elif kind == "stall":
-            dur = INF
+            dur = INF  # frozen before it did anything
         elif kind == "crash":
             sig = plan.get("sig", 9)
-            rc, out, err, dur = -sig, out[:plan.get("k", 0)], b"", min(dur, plan.get("d", 0.1))
+            dur = min(dur, plan.get("d", 0.1))
+            rc = -sig
+            chunks += [(t0 + dur, "out", out[:plan.get("k", 0)])]
         elif kind == "nonzero":
-            rc, out, err = plan.get("rc", 1), b"", _plan_bytes(plan, "text")
             dur = min(dur, plan.get("d", 0.1)) if dur != INF else plan.get("d", 0.1)
+            rc = plan.get("rc", 1)
+            chunks += [(t0 + dur, "err", _plan_bytes(plan, "text"))]
         elif kind == "garbage_out":
-            g = _plan_bytes(plan, "b")
-            if dur != INF:
-                out = g + (out if plan.get("keep", True) else b"")
+            chunks += [(t0 + 0.01, "out", _plan_bytes(plan, "b"))]  # printed while the interpreter starts up
+            if plan.get("keep", True):
+                chunks += [(t_out, "out", out)]
+            chunks += [(t_out, "err", err)]
         elif kind == "stderr_noise":
-            if dur != INF:
-                err = err + _plan_bytes(plan, "text")
+            chunks += [(t0 + 0.01, "err", _plan_bytes(plan, "text")), (t_out, "out", out), (t_out, "err", err)]
+        elif kind == "drip":
+            # the function reports progress: a little output every `every` seconds, for `for` seconds (or for ever),
+            # then it ends like the fault-free helper
+            every = max(float(plan.get("every", 0.5)), 0.01)
+            life = plan.get("for", "inf")
+            self._drip = {"every": every, "which": plan.get("stream", "out"), "data": _plan_bytes(plan, "text") or b".\n",
+                          "t0": t0 + d0, "until": INF if life in (None, "inf") else t0 + d0 + float(life)}
+            if self._drip["until"] == INF or state != "exit":
+                dur, rc = INF, None
+            else:
+                dur = d0 + float(life) + oc.get("slept", 0.0)
+                chunks += [(t0 + dur, "out", out), (t0 + dur, "err", err)]
         else:
             raise Unmodelled("unknown helper fault kind %r" % (kind,))
-        self._eff = {"out": out, "err": err, "rc": rc}
-        self._finish = self._spawn_t + dur if dur != INF else INF
-        self._blocked_on_stdin = state == "blocked-on-stdin" and kind not in ("crash", "nonzero")
+        self._chunks = sorted([c for c in chunks if c[2]], key=lambda c: c[0])
+        self._eff = {"rc": rc}
+        self._finish = t0 + dur if dur != INF else INF
+        self._blocked_on_stdin = state == "blocked-on-stdin" and kind not in ("crash", "nonzero", "stall")
         w.probe("helper-intrinsic-" + state)
+
+    def _avail(self, which, t):
+        """bytes the helper has written to `which` by virtual time t (nothing after it was killed)"""
+        if self._killed:
+            t = min(t, self._kill_t)
+        t = min(t, self._finish)
+        parts = [(ct, b) for ct, wh, b in self._chunks if wh == which and ct <= t]
+        dr = self._drip
+        if dr is not None and dr["which"] == which and t >= dr["t0"]:
+            n = int((min(t, dr["until"]) - dr["t0"]) / dr["every"] + 1e-9) + 1
+            n = min(n, 200000)
+            parts += [(dr["t0"] + i * dr["every"], dr["data"]) for i in range(n)]
+            parts.sort(key=lambda x: x[0])
+        return b"".join(b for _, b in parts)
+
+    def _next_output_time(self, which, now):
+        """the next virtual time after `now` at which more bytes appear on `which` (INF if never)"""
+        end = self._kill_t if self._killed else self._finish
+        best = INF
+        for ct, wh, b in self._chunks:
+            if wh == which and now < ct <= end:
+                best = min(best, ct)
+        dr = self._drip
+        if dr is not None and dr["which"] == which:
+            if now < dr["t0"]:
+                nt = dr["t0"]
+            else:
+                nt = dr["t0"] + (int((now - dr["t0"]) / dr["every"] + 1e-9) + 1) * dr["every"]
+            if nt <= min(end, dr["until"]):
+                best = min(best, nt)
+        return best
 
     def _conv(self, b):
         if self._encoding:
@@ -384,14 +468,18 @@ class SimPopen:
             w = self.world
             w.event("helper", self._req, self._idx, "exit", self.returncode)
             self._deliver_inherited()
+            w.sched.notify(self)
 
     def _deliver_inherited(self):
         # a child started with stdout=None / stderr=None writes into the parent's descriptors
         w = self.world
-        if self._stdout_arg is None and self._eff["out"]:
-            w.inherited_output(1, self._eff["out"])
-        if self._stderr_arg is None and self._eff["err"]:
-            w.inherited_output(2, self._eff["err"])
+        if self._inherited_done:
+            return
+        self._inherited_done = True
+        if self._stdout_arg is None and self._visible("out"):
+            w.inherited_output(1, self._visible("out"))
+        if self._stderr_arg is None and self._visible("err"):
+            w.inherited_output(2, self._visible("err"))
 
     def _proc_end(self):
         """virtual time at which the helper process itself is gone"""
@@ -413,24 +501,14 @@ class SimPopen:
         communicate()/read() wait for) or the timeout expires (virtual time)"""
         w = self.world
         self._resolve()
-        now = w.clock.now
-        target = self._pipes_end() if pipes else self._proc_end()
-        reached = True
-        if target > now:
-            if timeout is None:
-                if target == INF:
-                    w.event("helper", self._req, self._idx, "wait-forever", "pipes" if self._proc_end() != INF else "process")
-                    if self._proc_end() != INF:
-                        raise SimHang("blocking read without timeout on the pipes of a helper whose descendant keeps them open forever")
-                    raise SimHang("blocking wait without timeout on a helper that never finishes")
-                w.clock.advance(target - now)
-            else:
-                timeout = float(timeout)
-                if target <= now + timeout:
-                    w.clock.advance(target - now)
-                else:
-                    w.clock.advance(max(timeout, 0.0))
-                    reached = False
+        fn = self._pipes_end if pipes else self._proc_end
+        try:
+            reached = w.sched.wait_for(fn, timeout, on=self)
+        except SimHang:
+            w.event("helper", self._req, self._idx, "wait-forever", "pipes" if self._proc_end() != INF else "process")
+            if self._proc_end() != INF:
+                raise SimHang("blocking read without timeout on the pipes of a helper whose descendant keeps them open forever")
+            raise SimHang("blocking wait without timeout on a helper that never finishes")
         if self.returncode is None and not self._killed and self._finish <= w.clock.now:
             self._mark_exit()
         return reached
@@ -445,7 +523,12 @@ class SimPopen:
         if not self._reap_by_waiting(timeout, pipes=True):
             w.event("helper", self._req, self._idx, "timeout", float(timeout))
             w.probe("helper-timeout")
-            raise TimeoutExpired(self.args, timeout)
+            # as CPython: what has been read so far travels with the exception (bytes, also in text mode)
+            po = self._avail("out", w.clock.now) if self._stdout_arg == PIPE else b""
+            pe = self._avail("err", w.clock.now) if self._stderr_arg == PIPE else b""
+            if po or pe:
+                w.probe("helper-timeout-with-partial-output")
+            raise TimeoutExpired(self.args, timeout, output=po or None, stderr=pe or None)
         self._waited = True
         out = self._conv(self._visible("out")) if self._stdout_arg == PIPE else None
         if self._stderr_arg == STDOUT:
@@ -455,9 +538,8 @@ class SimPopen:
         return out, err
 
     def _visible(self, which):
-        if self._killed and self._eff is not None and self._finish > self._kill_t:
-            return b""  # killed before it produced its (atomic, tiny) output
-        return self._eff[which]
+        """everything the helper wrote to `which` during its life"""
+        return self._avail(which, INF)
 
     def wait(self, timeout=None):
         if not self._reap_by_waiting(timeout):
@@ -488,6 +570,8 @@ class SimPopen:
             self.returncode = -int(sig)
             w.event("helper", self._req, self._idx, "killed", int(sig))
             w.probe("helper-killed")
+            self._deliver_inherited()
+            w.sched.notify(self)
         elif sig in (signal.SIGSTOP, signal.SIGCONT, 0):
             pass
         else:
@@ -505,6 +589,7 @@ class SimPopen:
             self._orphan_killed = True
             w.event("helper", self._req, self._idx, "descendants-killed", int(sig))
             w.probe("helper-descendants-killed")
+            w.sched.notify(self)
 
     def orphan_alive(self):
         return (self._orphan_end is not None and not self._orphan_killed
@@ -548,6 +633,12 @@ def _unmodelled(name):
 
 def install(world, step_monitoring):
     """replace the seams in this process (a run fork).  Irreversible; the fork is thrown away."""
+    from . import aioloop, sched as sched_mod, simthreading
+    knobs = world.spec.get("knobs", {})
+    world.sched = sched_mod.Sched(world, plan=knobs.get("sched"), preempt_every=knobs.get("preempt_every", 0))
+    world.clock.sched = world.sched
+    simthreading.install(world.sched)
+    aioloop.install(world)
     SimPopen.world = world
     subprocess.Popen = SimPopen
     clock = world.clock
@@ -607,16 +698,10 @@ def install(world, step_monitoring):
         _posixsubprocess.fork_exec = _unmodelled("_posixsubprocess.fork_exec")
     except ImportError:
         pass
-    import threading
-    threading.Thread.start = _unmodelled("threading.Thread.start")
-    try:
-        import _thread
-        _thread.start_new_thread = _unmodelled("_thread.start_new_thread")
-    except ImportError:
-        pass
     signal.alarm = _unmodelled("signal.alarm")
     sc = StepClock(use_monitoring=step_monitoring)
     sc.install()
+    sc.sched = world.sched
     real_setitimer = signal.setitimer
     world.steps = sc
     return sc
